@@ -13,8 +13,8 @@ import (
 // execution of the program: no memory, no calls, no control flow except the
 // min/max builtins. ok=false when the expression contains anything else.
 type intEnv struct {
-	lens   map[ssa.Value]int64 // len(v) for slice-typed values
-	params map[ssa.Value]int64
+	lens    map[ssa.Value]int64 // len(v) for slice-typed values
+	params  map[ssa.Value]int64
 	globals map[string]int64 // package-level variable name -> value
 }
 
